@@ -397,6 +397,8 @@ _EXTRA = {
     'R79': (['C17'], 'R79 (sibling): reify_attributes selects the attribute triples by the VALUE of the role (== / !=), never by the identity of the string object (`is`), which differs between processes.'),
     'R136': (['C05', 'C20'],
              'R136: in _rearrange every path from entry to exit passes the loop that contains the recursive call (CFG path search): no early return cuts a subtree off.'),
+    'R137': (['C11', 'C12'],
+             'R137: in _dereify_agenda the exchange of the two relations of a collapsed node is guarded by get_pushed_variable(g, second) == var (branch facts), not by appears_inverted.'),
     'R108': (['C03', 'C05', 'C12', 'C20'], 'R108: in configure no path leads from the _find_next call back to the loop head without the list of passed-over data having been used.'),
     'R87': (['C20', 'C17'], 'R87: the option tables main() builds once are only read by process/_process_in/_process_out (alias-following over what is unpacked from them).'),
     'R86': (['C01', 'C07', 'C08', 'C09', 'C19', 'C20', 'C11', 'C12', 'C17'], 'R86: an argument annotated as Iterable / Iterator / file is walked at most once on every path (a second walk of a file or generator finds nothing).'),
